@@ -11,6 +11,7 @@ import importlib
 import json
 import multiprocessing as mp
 import os
+import re
 import subprocess
 import sys
 import time
@@ -165,12 +166,20 @@ def sha(s):
 def write_replay(pid, key, msg, payload):
     os.makedirs(os.path.join(ROOT, 'replays'), exist_ok=True)
     rel = os.path.join('replays', '%s-%s.json' % (pid, sha(key)))
+    doc = {
+        'property': pid, 'key': key, 'message': msg, 'payload': payload,
+        'how_to_run': './check %s --replay %s' % (pid, rel),
+    }
+    if OPT_PASS:
+        # found under "python -O" (assert statements compiled away)
+        doc['python_optimize'] = True
     with open(os.path.join(ROOT, rel), 'w') as f:
-        json.dump({
-            'property': pid, 'key': key, 'message': msg, 'payload': payload,
-            'how_to_run': './check %s --replay %s' % (pid, rel),
-        }, f, indent=1, sort_keys=True, default=repr)
+        json.dump(doc, f, indent=1, sort_keys=True, default=repr)
     return rel
+
+
+OPT_PASS = False
+OPT_SUFFIX = ':python-O'
 
 
 def replay_in_subprocess(pid, rel):
@@ -178,8 +187,8 @@ def replay_in_subprocess(pid, rel):
     env = dict(os.environ)
     try:
         p = subprocess.run(
-            [sys.executable, '-m', 'mc.main', pid, '--replay', rel,
-             '--quiet'],
+            [sys.executable] + (['-O'] if OPT_PASS else []) +
+            ['-m', 'mc.main', pid, '--replay', rel, '--quiet'],
             cwd=ROOT, env=env, capture_output=True, text=True, timeout=120)
     except subprocess.TimeoutExpired:
         return 2, ['<replay-timed-out>'], 'replay timed out'
@@ -202,6 +211,13 @@ def do_replay(pid, path, quiet=False):
     prop = load_prop(pid)
     doc = json.load(open(path if os.path.isabs(path)
                          else os.path.join(ROOT, path)))
+    if doc.get('python_optimize') and not sys.flags.optimize:
+        # the finding needs an interpreter started with -O
+        p = subprocess.run([sys.executable, '-O', '-m', 'mc.main', pid,
+                            '--replay', path] + (['--quiet'] if quiet
+                                                 else []), cwd=ROOT)
+        return p.returncode
+    suffix = OPT_SUFFIX if doc.get('python_optimize') else ''
     if doc['payload'].get('kind') == 'unit-stall':
         from mc.spec import from_jsonable
         _PROP, _TIER = prop, doc['payload'].get('tier', 'quick')
@@ -222,20 +238,22 @@ def do_replay(pid, path, quiet=False):
         from mc.explore import clean_key as _ck
         viols = [{'key': v['key'], 'msg': v['msg']}
                  for v in res.get('violations', [])
-                 if _ck(v['key']) == doc['payload']['key']]
+                 if _ck(v['key']) + suffix == doc['payload']['key']]
     else:
         viols = prop.replay(doc['payload'])
     kf = known_findings()
     rc = 0
     from mc.explore import clean_key
     for v in viols:
-        v['key'] = clean_key(v['key'])
+        v['key'] = clean_key(v['key']) + suffix
         print('REPLAY-KEY=%s' % v['key'])
         if not quiet:
             print('  %s' % v['msg'])
-        if (pid, v['key']) in kf:
+        base = v['key'][:-len(OPT_SUFFIX)] \
+            if v['key'].endswith(OPT_SUFFIX) else v['key']
+        if (pid, base) in kf:
             print('KNOWN-FINDING: property=%s key=%s %s'
-                  % (pid, v['key'], kf[(pid, v['key'])]))
+                  % (pid, v['key'], kf[(pid, base)]))
         else:
             if not quiet:
                 print('VIOLATION property=%s replay=%s' % (pid, path))
@@ -263,6 +281,8 @@ def main(argv=None):
     args = ap.parse_args(argv)
     pid = args.pid.upper()
 
+    global OPT_PASS
+    OPT_PASS = bool(args.opt_pass)
     if args.replay:
         sys.exit(do_replay(pid, args.replay, args.quiet))
 
@@ -279,8 +299,8 @@ def main(argv=None):
 
     # replay files of earlier runs of this property are stale
     import glob
-    for old_replay in glob.glob(os.path.join(ROOT, 'replays',
-                                             '%s-*.json' % pid)):
+    for old_replay in ([] if args.opt_pass else glob.glob(
+            os.path.join(ROOT, 'replays', '%s-*.json' % pid))):
         try:
             os.remove(old_replay)
         except OSError:
@@ -374,8 +394,8 @@ def main(argv=None):
         if r.get('cap_hit'):
             unit_caps += 1
         for v in r.get('violations', []):
-            e = viols.setdefault(v['key'], [r['unit_index'], v['msg'],
-                                            v['payload'], 0])
+            e = viols.setdefault(v['key'] + (OPT_SUFFIX if OPT_PASS else ''),
+                                 [r['unit_index'], v['msg'], v['payload'], 0])
             e[3] += v.get('count', 1)
 
     if hasattr(prop, 'finish'):
@@ -396,10 +416,12 @@ def main(argv=None):
     nonrepro = []
     for key in sorted(viols, key=lambda k: (viols[k][0], k)):
         ui, msg, payload, cnt = viols[key]
-        if (pid, key) in kf:
+        base = key[:-len(OPT_SUFFIX)] if key.endswith(OPT_SUFFIX) else key
+        if (pid, base) in kf:
             known_hit.append(key)
-            print('KNOWN-FINDING: property=%s key=%s %s (%d occurrences)'
-                  % (pid, key, kf[(pid, key)], cnt))
+            if not OPT_PASS:        # (the main pass already printed it)
+                print('KNOWN-FINDING: property=%s key=%s %s (%d occurrences)'
+                      % (pid, key, kf[(pid, base)], cnt))
             continue
         unknown.append(key)
         if len(unknown) > 25:
@@ -438,6 +460,31 @@ def main(argv=None):
         print('  ... %d further distinct violation keys not listed'
               % (len(unknown) - 25))
 
+    opt_rc = 0
+    opt_info = None
+    if hasattr(prop, 'OPT_UNITS') and not args.opt_pass and \
+            not os.environ.get('VERIF_NO_OPT_PASS'):
+        # the same units once more in an interpreter started with -O
+        # (assert statements and __debug__ blocks compiled away)
+        cp = subprocess.run(
+            [sys.executable, '-O', '-m', 'mc.main', pid, '--tier', args.tier,
+             '--opt-pass', '--no-evidence', '--workers', str(args.workers)],
+            cwd=ROOT, capture_output=True, text=True)
+        opt_rc = cp.returncode
+        for line in cp.stdout.splitlines():
+            if line.startswith(('VIOLATION', 'KNOWN-FINDING', '  key=',
+                                '  | ')):
+                print(line)
+            m = re.match(r'%s \w+: units=(\d+)/(\d+) .* evals=(\d+) .* '
+                         r'violations=(\d+)' % pid, line)
+            if m:
+                opt_info = {'units': int(m.group(2)),
+                            'units_completed': int(m.group(1)),
+                            'evaluations': int(m.group(3)),
+                            'violations': int(m.group(4))}
+        if opt_rc not in (0, 1):
+            sys.stderr.write(cp.stderr[-3000:])
+
     wall = time.time() - t0
     complete = (len(done) == n and not cap_hit and not unit_caps
                 and not harness_errors)
@@ -461,13 +508,15 @@ def main(argv=None):
         'workers': args.workers,
     }
     cov.update(extra)
+    if opt_info is not None:
+        cov['python_O_pass'] = opt_info
     ev = {
         'property_id': pid, 'tier': args.tier, 'seed': seed,
         'level': getattr(prop, 'LEVEL', 'model_checking'),
         'coverage': cov,
         'assumptions': plan.get('assumptions', []),
         'wall_s': round(wall, 2),
-        'violations': len(unknown),
+        'violations': len(unknown) + ((opt_info or {}).get('violations', 0)),
     }
     if not args.no_evidence:
         os.makedirs(os.path.join(ROOT, 'evidence'), exist_ok=True)
@@ -492,7 +541,9 @@ def main(argv=None):
         # reproduce from a fresh process and are not reported as violations
         print('UNCONFIRMED (not reproduced from a fresh process): %r'
               % (x[0],), file=sys.stderr)
-    sys.exit(1 if unknown else 0)
+    if opt_rc not in (0, 1):
+        sys.exit(2)
+    sys.exit(1 if (unknown or opt_rc == 1) else 0)
 
 
 if __name__ == '__main__':
